@@ -76,6 +76,8 @@ func ownedByRelease(o map[string]interface{}, name, ns string) bool {
 	return lb != nil && an != nil && lb["app.kubernetes.io/managed-by"] == "Helm" && an["meta.helm.sh/release-name"] == name && an["meta.helm.sh/release-namespace"] == ns
 }
 
+const c07SkippedSig = "C07:ownership-check-skipped/upgrade/conflicting-object-is-listed-by-the-base-revision-manifest"
+
 type c07Step struct {
 	Op    *world.Op `json:"op,omitempty"`
 	Place *c07Place `json:"place,omitempty"`
@@ -156,23 +158,30 @@ func (j *c07Judge) runOp(op *world.Op) (cut bool, conflict bool, preexisting int
 		ctx += "-take-ownership"
 	}
 	skipped := false
-	// When no revision is deployed, upgrade diffs against the last (failed) revision: a resource that revision merely
-	// listed is treated as already belonging to the release. Named separately because it is one specific root cause.
-	if op.Kind == "upgrade" && len(conflicts) > 0 && len(deployedRevs(res.Pre)) == 0 && len(res.Pre) > 0 {
-		if base, ok := j.specOf[res.Pre[len(res.Pre)-1].Version]; ok {
-			named := base.ResByKey()
-			all := true
-			for _, r := range op.Chart.Resources {
-				if live := preLive[r.Path()]; live != nil && !ownedByRelease(live, "r", "default") {
-					if _, ok := named[r.Key()]; !ok {
-						all = false
-					}
+	// The ownership check only looks at resources that the base revision's manifest (the deployed revision, or the last
+	// one when none is deployed) does not list. An object that manifest merely lists - never created, or deleted again
+	// by a failed upgrade - is assumed to belong to the release. Named separately: one specific root cause.
+	var baseSpec *world.ChartSpec
+	if op.Kind == "upgrade" && len(res.Pre) > 0 {
+		bv := res.Pre[len(res.Pre)-1].Version
+		if d := deployedRevs(res.Pre); len(d) > 0 {
+			bv = d[len(d)-1]
+		}
+		if s, ok := j.specOf[bv]; ok {
+			baseSpec = &s
+		}
+	}
+	if baseSpec != nil && len(conflicts) > 0 {
+		named := baseSpec.ResByKey()
+		all := true
+		for _, r := range op.Chart.Resources {
+			if live := preLive[r.Path()]; live != nil && !ownedByRelease(live, "r", "default") {
+				if _, ok := named[r.Key()]; !ok {
+					all = false
 				}
 			}
-			if all {
-				skipped = true
-			}
 		}
+		skipped = all
 	}
 	// always: deletes only hit objects named by a manifest or hook of this release
 	for _, e := range res.Events {
@@ -182,6 +191,26 @@ func (j *c07Judge) runOp(op *world.Op) (cut bool, conflict bool, preexisting int
 	}
 	// an object another actor created while the operation ran must not be written by it (unless take-ownership)
 	if ij := op.Interject; ij != nil && ij.Done && !op.TakeOwnership {
+		ijSkipped := false
+		if baseSpec != nil {
+			for _, r := range baseSpec.Resources {
+				if r.Path() == ij.Path {
+					ijSkipped = true
+				}
+			}
+		}
+		if ijSkipped {
+			changed := res.Err == nil
+			for _, e := range res.Events {
+				if e.Layer == "kube" && e.Key == ij.Path && (e.Verb == "PATCH" || e.Verb == "PUT") && e.Code < 300 {
+					changed = true
+				}
+			}
+			if changed {
+				return j.fail(c07SkippedSig, "the object appeared during the operation: "+ij.Path), len(conflicts) > 0, preexisting
+			}
+			return false, len(conflicts) > 0, preexisting
+		}
 		for _, e := range res.Events {
 			if e.Layer == "kube" && e.Key == ij.Path && (e.Verb == "PATCH" || e.Verb == "PUT") && e.Code < 300 {
 				return j.fail("C07:write-to-foreign-object-that-appeared-during-the-operation/"+op.Kind, e.String()), len(conflicts) > 0, preexisting
@@ -221,7 +250,7 @@ func (j *c07Judge) runOp(op *world.Op) (cut bool, conflict bool, preexisting int
 			}
 		}
 		if changed {
-			return j.fail("C07:ownership-check-skipped/upgrade/no-deployed-revision-and-conflicting-object-is-listed-by-the-failed-base-revision", fmt.Sprintf("conflicts %v, err=%v", conflicts, res.Err)), true, preexisting
+			return j.fail(c07SkippedSig, fmt.Sprintf("conflicts %v, err=%v", conflicts, res.Err)), true, preexisting
 		}
 		return false, true, preexisting
 	}
